@@ -16,6 +16,14 @@ Two layers:
   created ones start at the time of their creation, surviving ones keep their fronts, and the
   loop invariant — hence termination, monotone clock, exactly-once application (C01–C03) — is
   preserved.
+
+Outside the model (known finding **F19**): a `_move` is reported to the engine as a deletion of the
+old path plus an addition under the new one, so in the model the moved process is a *new* process
+with a fresh front (`new_start_now_survivors_keep`).  The real engine does the same — and that is
+the defect when the moved process still has an update in flight: its worker/instance is invoked
+again under the new path while the command issued under the old path is pending.  The theorems
+here say nothing about the identity of process *instances* across a move; F19 is classified by the
+oracle of `harness/props/c10.py` on the implementation.
 -/
 namespace VivProps.C10
 open Viv.Book
